@@ -518,6 +518,7 @@ class Inliner:
     self.count = 0
     self.sites: List[str] = []
     self._recv: Dict[int, str] = {}
+    self._rec_cache: Dict[int, dict] = {}
     global _PROJECT_QUALS
     _PROJECT_QUALS = set(project.funcs) | set(project.classes)
 
@@ -586,21 +587,34 @@ class Inliner:
     the local `name` of `scope` holds: `name = C(...)` is its only binding."""
     if scope is None or getattr(scope, 'is_lambda', True):
       return None
-    stores = [n for n in _own_nodes(scope.node) if isinstance(
-        n, ast.Name) and n.id == name and isinstance(n.ctx, ast.Store)]
-    if len(stores) != 1 or name in scope.params:
-      return None
-    for n in _own_nodes(scope.node):
-      if isinstance(n, ast.Assign) and len(n.targets) == 1 and (
-          n.targets[0] is stores[0]) and isinstance(n.value, ast.Call):
+    key = id(scope.node)
+    table = self._rec_cache.get(key)
+    if table is None:
+      # one walk per function (and per rewrite of it): locals with a single
+      # binding `v = C(...)`, C a record class of the tree
+      table = {}
+      stores: Dict[str, int] = {}
+      cands = []
+      for n in _own_nodes(scope.node):
+        if isinstance(n, ast.Name) and isinstance(n.ctx, (ast.Store, ast.Del)):
+          stores[n.id] = stores.get(n.id, 0) + 1
+        elif isinstance(n, ast.Assign) and len(n.targets) == 1 and isinstance(
+            n.targets[0], ast.Name) and isinstance(n.value, ast.Call):
+          cands.append(n)
+      params = set(scope.params)
+      for n in cands:
+        v = n.targets[0].id
+        if stores.get(v) != 1 or v in params:
+          continue
         try:
           q = self.p.resolve(n.value.func, scope)
         except Exception:  # pylint: disable=broad-except
-          return None
+          continue
         ci = self.p.classes.get(q) if q else None
         if ci is not None and is_record_class(ci):
-          return ci
-    return None
+          table[v] = ci
+      self._rec_cache[key] = table
+    return table.get(name)
 
   def _plain_callee(self, call, scope, generator):
     try:
@@ -1099,9 +1113,15 @@ class Inliner:
     for _ in range(2):
       before = self.count
       for f in order:
+        c0 = self.count
+        self._rec_cache.pop(id(f.node), None)
         f.node.body = self._expand_stmts(f, f.node.body)
+        if self.count != c0:
+          self._rec_cache.pop(id(f.node), None)
         for i, st in enumerate(f.node.body):
           f.node.body[i] = self._expand_exprs(f, st)
+        if self.count != c0:
+          self._rec_cache.pop(id(f.node), None)
         self._fold_records(f)
         ast.fix_missing_locations(f.node)
       if self.count == before:
@@ -1114,7 +1134,12 @@ class Inliner:
     Only for records that are not modified (`r.a = ...`) and whose constructor
     arguments are plain names / constants that are not rebound afterwards."""
     fn = f.node
+    any_change = False
     for _ in range(3):
+      self._rec_cache.pop(id(fn), None)
+      self._record_class_of('', f)
+      if not self._rec_cache.get(id(fn)):
+        return any_change
       stores: Dict[str, int] = {}
       for n in _own_nodes(fn):
         if isinstance(n, ast.Name) and isinstance(n.ctx, (ast.Store, ast.Del)):
@@ -1149,7 +1174,7 @@ class Inliner:
           continue
         recs[v] = (ci, b, n)
       if not recs:
-        return
+        return any_change
       # records that are written to, or escape whole, keep their identity for
       # the escaping use; field reads can still be folded
       written = {n.value.id for n in _own_nodes(fn) if isinstance(
@@ -1217,7 +1242,9 @@ class Inliner:
 
         D().visit(fn)
       if not changed[0]:
-        return
+        return any_change
+      any_change = True
+    return any_change
 
 
 def _terminates_or_assigns(body, st) -> bool:
